@@ -789,9 +789,19 @@ class Recorder:
         n = min(lens)
         # rows: ids of x (through the registered transform), logl and blob; u is not returned -> use x's id
         rows = []
+        # posterior() does not return u.  Two DIFFERENT cube points can transform to the same x (rounding of the affine map, e.g. a
+        # tpCN proposal one ulp away from the current point): the id of a returned row is then the id of a STORED record with that x
+        stored = {}
+        try:
+            st_ = self.sampler.state
+            for xi_, ui_ in zip(st_.get_history("x", flat=True), st_.get_history("u", flat=True)):
+                stored.setdefault(_row(xi_), set()).add(self.utag.get(_row(ui_), 0))
+        except Exception:
+            stored = {}
         for i in range(n):
             xs = self.x2u.get(_row(x[i]), ())
-            xid = min(xs) if xs else 0
+            cand = sorted(set(xs) & stored.get(_row(x[i]), set()))
+            xid = cand[0] if cand else (min(xs) if xs else 0)
             ls = self.l2u.get(_bits(logl[i]), ())
             lid = xid if xid in ls else (min(ls) if ls else 0)
             if blobs is not None:
